@@ -695,6 +695,11 @@ func runC02(ctx *core.Ctx) {
 		runC02Oracle(ctx)
 		return
 	}
+	if os.Getenv("C02_ONLY") == "round5" { // development aid: only the streams added in round 5 (many seeds, quickly)
+		runC02StageRepeat(ctx)
+		runC02ExtendsX(ctx)
+		return
+	}
 	// ---- 1. exhaustive small scope
 	// 1a. path matching: every pattern/path pair over a small alphabet of parts up to 3 parts (+ the root)
 	partsAlpha := []string{"a", "b", "*", "[]", ""}
@@ -948,6 +953,8 @@ func runC02(ctx *core.Ctx) {
 		ctx.Add("c02.mergeSeq", map[string]any{"a": seqArg(), "b": seqArg(), "c": seqArg(), "d": seqArg()})
 	}
 	runC02MergeRepeat(ctx)
+	runC02StageRepeat(ctx)
+	runC02ExtendsX(ctx)
 	for i := 0; i < ctx.Pick(6000, 100000); i++ {
 		ctx.Count("merge-random")
 		ctx.Add("c02.merge", c02MergeArgs{Base: core.EncodeVal(c02TopMap(ctx)), Over: core.EncodeVal(c02TopMap(ctx))})
